@@ -317,17 +317,19 @@ def blocks_shards(ctx):
     return S
 
 
-def pp_shards(ctx, emit=True):
+def pp_shards(ctx, emit=True, small=False):
     q = ctx.quick
     S = []
-    for vb, mk, mn, mx, ex, alpha in ((2, "sensible", 2, 4, 5 if q else 6, {0, 1}), (4, "sensible", 2, 3, 6 if q else 8, {0, 1}),
-                                      (2, "neon", 2, 3, 5, {0, 1}), (4, "neon", 2, 3, 6 if q else 8, {0, 1}), (2, "sensible", 2, 3, 3 if q else 4, {0, 1, 2})):
+    d = 2 if (small and q) else 0
+    for vb, mk, mn, mx, ex, alpha in ((2, "sensible", 2, 4 if not d else 3, (5 if q else 6) - d, {0, 1}), (4, "sensible", 2, 3, (6 if q else 8) - d, {0, 1}),
+                                      (2, "neon", 2, 3, 5 - d, {0, 1}), (4, "neon", 2, 3, (6 if q else 8) - d, {0, 1}), (2, "sensible", 2, 3, (3 if q else 4) - (1 if d else 0), {0, 1, 2})):
         S.append(("pp%d%s%d" % (vb, mk[0], len(alpha)), "MC_PackedPair",
                   sub(K_PAIR, MASKKIND=mk, VB=vb, Alpha=alpha, MinN=mn, MaxN=mx, Extra=ex, Emit=emit and mk == "sensible"), PP_INV, 4))
     return S
 
 
-PP_ARMS = {"panic", "loop_hit", "loop_miss", "tail_short", "tail_hit", "tail_miss", "tail_none", "p_panic", "p_loop_hit", "p_loop_miss", "p_tail_hit", "p_tail_miss", "p_tail_none"}
+# "tail_none" (cur == end after the main loop) is unreachable: min_haystack_len > VB, so the `if cur < end` of the code is always taken
+PP_ARMS = {"panic", "loop_hit", "loop_miss", "tail_short", "tail_hit", "tail_miss", "p_panic", "p_loop_hit", "p_loop_miss", "p_tail_hit", "p_tail_miss"}
 
 
 def c12(ctx):
@@ -375,14 +377,20 @@ def c11(ctx):
 def c19(ctx):
     binp = C.build_harness()
     q = ctx.quick
-    shards = [("pair3", "MC_Pair", sub(K_PAIR, Alpha={0, 1, 2}, MaxN=6 if q else 7, Ranks={0, 1, 2}, Emit=True), PAIR_INV, 4),
-              ("pair2", "MC_Pair", sub(K_PAIR, PAIRCAP=6, Alpha={0, 1}, MaxN=8 if q else 10, Ranks={0, 1}, Emit=True), PAIR_INV, 4)]
-    res = run_shards(ctx, shards)
+    shards = [("pair3", "MC_Pair", sub(K_PAIR, Alpha={0, 1, 2}, MaxN=6 if q else 7, Ranks={0, 1, 2}, LongLens=set(), Emit=True), PAIR_INV, 4),
+              ("pair2", "MC_Pair", sub(K_PAIR, PAIRCAP=6, Alpha={0, 1}, MaxN=8 if q else 10, Ranks={0, 1}, LongLens=set(), Emit=True), PAIR_INV, 4),
+              # the real cap (255): long needles with the rare byte placed on both sides of the cap
+              ("pairL", "MC_Pair", sub(K_PAIR, PAIRCAP=255, Alpha={0, 1}, MaxN=0, Ranks={0, 1, 2}, LongLens={253, 254, 255, 256, 257, 300} | (set() if q else {258, 400, 600}), Emit=True), PAIR_INV, 4)]
+    ps = pp_shards(ctx)
+    res = run_shards(ctx, shards + ps)
     vec, n = vec_of(ctx, res, shards, "pair.ndjson")
-    ctx.traces += n
+    pvec, pn = vec_of(ctx, res, ps, "pp.ndjson")
+    ctx.traces += n + pn
     ctx.nontrivial += n
     replay_cmd(ctx, binp, "replay-pair", vec, "pair", {"result", "panic"})
-    ctx.evaluations += sum_exec(ctx, ["pair_exec"])
+    # finders built from every valid pair report that pair and the documented minimum length
+    replay_cmd(ctx, binp, "replay-pp", pvec, "pp", {"pair"})
+    ctx.evaluations += sum_exec(ctx, ["pair_exec", "pp_real_exec", "pp_scaled_exec"])
     return C.finish(ctx, "model_checking",
                     "MC_Pair: all needles over a 3-letter alphabet x all 27 rankers (constant, non-injective, adversarial) with the scan transcribed step by step and the "
                     "cap scaled; invariants None <=> |n| < 2, offsets distinct, in range, below the cap, with_indices accepts exactly distinct in-range pairs; every "
@@ -436,6 +444,41 @@ def c17(ctx):
                     "and every byte-iterator behaviour is executed under a counting global allocator armed per thread around each individual call; distinct = distinct vectors")
 
 
+def c05(ctx):
+    q = ctx.quick
+    ops = {"find", "rfind", "count"}
+    gs = [("g4", "MC_GenericMemchr", dict(VB=4, MinLen=4, MaxLen=20 if q else 40, DenseMax=8, Ops=ops, NNs={1, 2}, Bases=set(range(4)), Families={"sparse", "dense"}, Emit=True), GEN_INV, 3),
+          ("g16", "MC_GenericMemchr", dict(VB=16, MinLen=16, MaxLen=90 if q else 150, DenseMax=15, Ops=ops, NNs={1, 2}, Bases={0, 1, 15} if q else {0, 1, 7, 8, 15}, Families={"single"}, Emit=True), GEN_INV, 3),
+          ("g32", "MC_GenericMemchr", dict(VB=32, MinLen=32, MaxLen=140 if q else 300, DenseMax=31, Ops=ops, NNs={1, 2}, Bases={0, 31} if q else {0, 1, 16, 31}, Families={"single"}, Emit=True), GEN_INV, 3),
+          ("s8", "MC_Swar", dict(WB=8, MaxLen=26 if q else 40, DenseMax=8, Ops=ops, NNs={1, 2}, Families={"sparse", "dense"}, Emit=True), SWAR_INV, 3)]
+    ps = pp_shards(ctx, small=True)
+    ie = [("ie", "MC_IsEqual", dict(MaxLen=6 if q else 8, LongLen=40 if q else 72, Emit=True), IE_INV, 3)]
+    os_ = oracle_shards(ctx)
+    res = run_shards(ctx, gs + ps + ie + os_, timeout=3000)
+    bvec, bn = vec_of(ctx, res, gs, "bytes.ndjson")
+    gvec, _ = vec_of(ctx, res, gs[:3], "generic.ndjson")
+    mvec, mn = vec_of(ctx, res, os_, "mm.ndjson")
+    pvec, pn = vec_of(ctx, res, ps, "pp.ndjson")
+    ctx.traces += bn + mn + pn + res["ie"]["vectors"]
+    ctx.nontrivial += bn + mn
+    classes = {"oob", "misaligned"}
+    for prof in ("dev", "release"):
+        binp = C.build_harness(profile=prof)
+        replay_cmd(ctx, binp, "replay-guard", bvec, "guard_bytes_%s" % prof, classes)
+        replay_cmd(ctx, binp, "replay-guard", mvec, "guard_sub_%s" % prof, classes, extra=["--lifts", 4 if q else 8])
+        replay_cmd(ctx, binp, "replay-iseq", res["ie"]["vec_path"], "iseq_%s" % prof, classes)
+    binp = C.build_harness()
+    # hooked loads of the real generic code at the model widths (vector part) and of the scaled packed-pair code
+    replay_cmd(ctx, binp, "replay-generic", gvec, "generic_loads", classes, extra=["--variants", 1, "--stretches", 2])
+    replay_cmd(ctx, binp, "replay-pp", pvec, "pp_loads", classes)
+    ctx.evaluations += sum_exec(ctx, ["guard_exec", "iseq_exec", "real_exec", "scaled_exec", "pp_scaled_exec", "pp_real_exec"])
+    return C.finish(ctx, "model_checking",
+                    "model: LoadsOK / aligned-loads-aligned are invariants of every L-model with raw loads (GenericMemchr find/rfind/count, Swar, PackedPair find/find_prefilter, IsEqual) "
+                    "over every length x alignment x match placement x pair within the bounds; code: every vector (byte search, substring incl. lifted needles > 32 bytes, packed pair "
+                    "with extreme offsets, out-of-contract safe calls with a different needle) is executed with haystack and needle ending exactly at / starting exactly after a "
+                    "PROT_NONE page in process-isolated children, on a debug-assertions build and on a release build, and all hooked loads are checked against the slices")
+
+
 def c01(ctx):
     byte_search(ctx, ["find"], {"result", "panic"})
     return C.finish(ctx, "model_checking", RULE_BYTES)
@@ -452,7 +495,7 @@ def c07(ctx):
     return C.finish(ctx, "model_checking", RULE_BYTES)
 
 
-RECIPES = {"C01": c01, "C02": c02, "C03": c03, "C04": c04, "C06": c06, "C07": c07, "C08": c08, "C10": c10, "C11": c11, "C12": c12, "C16": c16, "C17": c17, "C18": c18, "C19": c19}
+RECIPES = {"C01": c01, "C02": c02, "C03": c03, "C04": c04, "C05": c05, "C06": c06, "C07": c07, "C08": c08, "C10": c10, "C11": c11, "C12": c12, "C16": c16, "C17": c17, "C18": c18, "C19": c19}
 
 
 def run(prop, tier, seed):
